@@ -195,7 +195,7 @@ fn gen_text0(rng: &mut Rng, words: &[&str], nlines: usize, crlf: bool) -> String
         for _ in 0..n {
             s.push_str(rng.pick(words));
         }
-        if rng.chance(1, 12) {
+        if rng.chance(1, 12) && !cfg!(miri) {
             // a long line, to straddle decode buffers
             for _ in 0..rng.range(200, 3000) {
                 s.push_str(rng.pick(words));
@@ -251,6 +251,7 @@ pub fn gen_case(rng: &mut Rng) -> Case17 {
         1 => rng.range(11, 80),
         _ => rng.range(81, 1500),
     };
+    let nlines = if cfg!(miri) { nlines.min(4) } else { nlines };
     let kind = rng.below(10);
     let malformed = rng.chance(1, 4);
     let (raw, label, sniff): (Vec<u8>, Option<Enc>, bool) = match kind {
